@@ -71,8 +71,9 @@ fn set_accept(m: &Md, s: &St) -> (Vec<u8>, Vec<u8>, u16) {
 
 #[derive(Clone, Copy, Debug, PartialEq)]
 /// Set: the group as the first alternative of a two-member set, in the input and in the output (`{V:[m], k} > {[+nasal], k}`, `{V, k} > {[m], k}`)
-enum Kind { Ipa, Group, Matrix, Syll, Set }
-const KINDS: [Kind; 5] = [Kind::Ipa, Kind::Group, Kind::Matrix, Kind::Syll, Kind::Set];
+/// IpaOut (output role only): the vowel replaced by the literal with the modifier, `V > a:[m]` — a literal is short unless the modifier says otherwise
+enum Kind { Ipa, Group, Matrix, Syll, Set, IpaOut }
+const KINDS: [Kind; 6] = [Kind::Ipa, Kind::Group, Kind::Matrix, Kind::Syll, Kind::Set, Kind::IpaOut];
 
 fn elem_text(k: Kind, m: Option<&Md>) -> String {
     let mods = m.map(md_text).unwrap_or_default();
@@ -82,12 +83,15 @@ fn elem_text(k: Kind, m: Option<&Md>) -> String {
         Kind::Matrix => { let mut v = vec!["+syll".to_string()]; v.extend(mods); format!("[{}]", v.join(", ")) }
         Kind::Syll => if mods.is_empty() { "%".into() } else { format!("%:[{}]", mods.join(", ")) },
         Kind::Set => if mods.is_empty() { "{V, k}".into() } else { format!("{{V:[{}], k}}", mods.join(", ")) },
+        Kind::IpaOut => "V".into(),
     }
 }
 fn rule_text(k: Kind, input_role: bool, m: &Md) -> String {
     if input_role {
         let marker = if k == Kind::Syll { "[tone:7]" } else if k == Kind::Set { "{[+nasal], k}" } else { "[+nasal]" };
         format!("{} > {}", elem_text(k, Some(m)), marker)
+    } else if k == Kind::IpaOut {
+        format!("V > a:[{}]", md_text(m).join(", "))
     } else if k == Kind::Set {
         format!("{} > {{[{}], k}}", elem_text(k, None), md_text(m).join(", "))
     } else {
@@ -158,7 +162,7 @@ fn judge(k: Kind, input_role: bool, m: &Md, s: &St, pos: usize, got: &Out<Result
             return Ok(*g != w);
         }
         if g[0] != w[0] || g[2] != w[2] { return Err(format!("another syllable changed: /{}/", show_cw(g))); }
-        let (la, sa, t) = set_accept(m, s);
+        let (la, sa, t) = if k == Kind::IpaOut { let (la, _, _) = set_accept(m, &St { len: 1, stress: s.stress, tone: s.tone }); let (_, sa, t) = set_accept(m, s); (la, sa, t) } else { set_accept(m, s) };
         let (start, n) = run_at(g, pos);
         // frame: the other segments of the syllable
         let mut rest = g[1].segs.clone();
@@ -195,7 +199,7 @@ pub fn run() -> i32 {
     r.assumptions.push("contradictory input modifiers may either never match or be reported as an error (the manual demands an error only for setting)".into());
     // (kind, role, modifier, with a one-item context on each side — only meaningful for the middle position)
     let mut jobs: Vec<(Kind, bool, Md, bool)> = vec![];
-    for k in KINDS { for role in [true, false] { for m in all_mods(k != Kind::Syll) { jobs.push((k, role, m, false)); if k != Kind::Syll { jobs.push((k, role, m, true)); } } } }
+    for k in KINDS { for role in [true, false] { if k == Kind::IpaOut && role { continue; } for m in all_mods(k != Kind::Syll) { jobs.push((k, role, m, false)); if k != Kind::Syll { jobs.push((k, role, m, true)); } } } }
     let mut tot = acc();
     par_fold(jobs.len(), 8, acc, |i, a| {
         let (k, role, m, ctx) = jobs[i];
@@ -224,25 +228,40 @@ pub fn run() -> i32 {
     // ---- box 2: the same modifiers on an element of the environment: before the target (matched on the mirrored word) and after it, as a
     // context and as an exception. `k > [+voice] / E:[m] _` on /t3.sn<a-run>.k/ and `t > [+voice] / _ E:[m]` on /t3.<a-run>sn.k/
     let mut ejobs: Vec<(Kind, Md, u8)> = vec![];
-    for k in KINDS { if k == Kind::Set { continue; } for m in all_mods(k != Kind::Syll) { if contradictory(&m) { continue; } for side in 0..4u8 { ejobs.push((k, m, side)); } } }
+    // sides 0-3: context / exception, before / after; 4-5: the element followed / preceded by a second item (`_ E:[m] s`, `n E:[m] _`), so that the whole
+    // long segment has to be stepped over; 6-7: the context of an insertion (`* > i / E:[m] _`, `* > i / _ E:[m]`), whose scan moves copy by copy
+    for k in KINDS { if k == Kind::Set || k == Kind::IpaOut { continue; } for m in all_mods(k != Kind::Syll) { if contradictory(&m) { continue; } for side in 0..8u8 { if side >= 4 && k == Kind::Syll { continue; } ejobs.push((k, m, side)); } } }
     let mut te = acc();
     par_fold(ejobs.len(), 8, acc, |i, a| {
         let (k, m, side) = ejobs[i];
-        let before = side % 2 == 0; let exception = side >= 2;
+        let before = side % 2 == 0; let exception = side == 2 || side == 3;
         let el = elem_text(k, Some(&m));
-        let text = format!("{} > [+voice] {} {}", if before { "k" } else { "t" }, if exception { "|" } else { "/" }, if before { format!("{} _", el) } else { format!("_ {}", el) });
+        let text = match side {
+            4 => format!("k > [+voice] / n {} _", el), 5 => format!("t > [+voice] / _ {} s", el),
+            6 => format!("* > i / {} _", el), 7 => format!("* > i / _ {}", el),
+            _ => format!("{} > [+voice] {} {}", if before { "k" } else { "t" }, if exception { "|" } else { "/" }, if before { format!("{} _", el) } else { format!("_ {}", el) }),
+        };
         let Out::Ok(Ok(compiled)) = guarded(5_000_000, || av::compile(&[group(&[&text])])) else { a.viols.push(Viol { key: format!("compile|{}", text), desc: format!("`{}` does not compile", text), case: json!({"rule": text}) }); return; };
         for len in 1..=3u8 { for stress in 0..3u8 { for tone in TONES {
             let st = St { len, stress, tone };
-            let w = build(&st, if before { 2 } else { 0 });
+            // a plain IPA item that says nothing about length, on a long segment, with a further item behind it: how much of the segment it
+            // stands for is not documented (see C03), not claimed
+            if side >= 4 && k == Kind::Ipa && m.long == 0 && m.over == 0 && len > 1 { continue; }
+            // insertion sites in the middle of the syllable (which syllable an insertion at a boundary joins is a separate question)
+            let wpos = if side >= 6 { 1 } else if before { 2 } else { 0 };
+            let w = build(&st, wpos);
             let hit = matches(&m, &st);
             let fires = hit != exception;
             let mut e = w.clone();
-            if fires { let (sy, sg) = if before { (2, 0) } else { (0, 0) }; e[sy].segs[sg] = model::set_feat(e[sy].segs[sg], 11, true); }
+            if fires && side >= 6 {
+                // the inserted /i/ goes next to the run, inside its syllable
+                let (start, n) = run_at(&w, wpos);
+                e[1].segs.insert(if before { start + n } else { start }, seg("i"));
+            } else if fires { let (sy, sg) = if before { (2, 0) } else { (0, 0) }; e[sy].segs[sg] = model::set_feat(e[sy].segs[sg], 11, true); }
             a.evals += 1;
             match run_one(&compiled, &w, &text) {
                 Out::Ok(Ok(g)) if g == e => { if fires { a.nt += 1; } a.outs.insert(hash64(&g)); }
-                Out::Ok(Ok(g)) => a.viols.push(Viol { key: format!("env|{:?}|{}|{}|len{},stress{},tone{}", k, ["ctx-before", "ctx-after", "exc-before", "exc-after"][side as usize], md_text(&m).join(","), len, stress, tone), desc: format!("`{}` on /{}/: the element {} the state (length {}, stress {}, tone {}), expected /{}/, got /{}/", text, show_cw(&w), if hit { "matches" } else { "does not match" }, len, stress, tone, show_cw(&e), show_cw(&g)), case: json!({"env": true, "rule": text, "word": cw_json(&w), "expected": cw_json(&e)}) }),
+                Out::Ok(Ok(g)) => a.viols.push(Viol { key: format!("env|{:?}|{}|{}|len{},stress{},tone{}", k, ["ctx-before", "ctx-after", "exc-before", "exc-after", "ctx-before-2", "ctx-after-2", "ins-before", "ins-after"][side as usize], md_text(&m).join(","), len, stress, tone), desc: format!("`{}` on /{}/: the element {} the state (length {}, stress {}, tone {}), expected /{}/, got /{}/", text, show_cw(&w), if hit { "matches" } else { "does not match" }, len, stress, tone, show_cw(&e), show_cw(&g)), case: json!({"env": true, "rule": text, "word": cw_json(&w), "expected": cw_json(&e)}) }),
                 Out::Ok(Err(er)) => a.viols.push(Viol { key: format!("env|{:?}|{}|{}|error", k, side, md_text(&m).join(",")), desc: format!("`{}` on /{}/: error {}", text, show_cw(&w), er), case: json!({"env": true, "rule": text, "word": cw_json(&w), "expected": cw_json(&e)}) }),
                 o => a.viols.push(Viol { key: format!("env|crash|{}", text), desc: o.crash_desc().unwrap(), case: json!({"env": true, "rule": text, "word": cw_json(&w), "expected": cw_json(&e)}) }),
             }
